@@ -509,3 +509,68 @@ Fixpoint mp_dec (t : mp_ty) : mp_decoder :=
              end) alts
       end
   end.
+
+(* ---------- entitywrapper: MigrateFrom as copy of the same-named fields ---------- *)
+
+Fixpoint mp_lookup_field (k : list Z) (fs : list (list Z * mp_ty)) (vs : list mp_val) : option (mp_ty * mp_val) :=
+  match fs, vs with
+  | (k', ft) :: fs', x :: vs' => if mp_key_eqb k' k then Some (ft, x) else mp_lookup_field k fs' vs'
+  | _, _ => None
+  end.
+
+(* decidable equality of schemas (only used to decide whether a field is common to two versions) *)
+Fixpoint mp_ty_eqb (a b : mp_ty) {struct a} : bool :=
+  match a, b with
+  | TBool, TBool | TF64, TF64 | TStr, TStr | TBin, TBin => true
+  | TInt x, TInt y | TUint x, TUint y => Z.eqb x y
+  | TArr x, TArr y | TMap x, TMap y | TPtr x, TPtr y => mp_ty_eqb x y
+  | TStruct x, TStruct y | TVer x, TVer y =>
+      (fix go (l : list (list Z * mp_ty)) (m : list (list Z * mp_ty)) : bool :=
+         match l, m with
+         | [], [] => true
+         | (k1, t1) :: l', (k2, t2) :: m' => mp_key_eqb k1 k2 && mp_ty_eqb t1 t2 && go l' m'
+         | _, _ => false
+         end) x y
+  | _, _ => false
+  end.
+
+(* the entity of the next version built from the prior one: the version field takes the new
+   tag, every field that the prior version has under the same key and schema is copied, new
+   fields start from their zero value *)
+Definition mp_migrate (tag : list Z) (fs_old : list (list Z * mp_ty)) (vs_old : list mp_val)
+                      (fs_new : list (list Z * mp_ty)) : list mp_val :=
+  map (fun kt =>
+         if mp_key_eqb (fst kt) mp_version_key then VStr tag
+         else match mp_lookup_field (fst kt) fs_old vs_old with
+              | Some (ft, x) => if mp_ty_eqb ft (snd kt) then x else mp_zero (snd kt)
+              | None => mp_zero (snd kt)
+              end) fs_new.
+
+(* ---------- decidable equality of values (correspondence checks) ---------- *)
+
+Definition mp_bytes_eqb (a b : list Z) : bool := mp_key_eqb a b.
+
+Fixpoint mp_val_eqb (a b : mp_val) {struct a} : bool :=
+  match a, b with
+  | VBool x, VBool y => Bool.eqb x y
+  | VInt x, VInt y | VF64 x, VF64 y => Z.eqb x y
+  | VStr x, VStr y | VBin x, VBin y => mp_bytes_eqb x y
+  | VArr x, VArr y | VStruct x, VStruct y =>
+      (fix go (l m : list mp_val) : bool :=
+         match l, m with
+         | [], [] => true
+         | p :: l', q :: m' => mp_val_eqb p q && go l' m'
+         | _, _ => false
+         end) x y
+  | VMap x, VMap y =>
+      (fix go (l m : list (list Z * mp_val)) : bool :=
+         match l, m with
+         | [], [] => true
+         | (k1, p) :: l', (k2, q) :: m' => mp_bytes_eqb k1 k2 && mp_val_eqb p q && go l' m'
+         | _, _ => false
+         end) x y
+  | VPtr None, VPtr None => true
+  | VPtr (Some p), VPtr (Some q) => mp_val_eqb p q
+  | VVer t1 p, VVer t2 q => mp_bytes_eqb t1 t2 && mp_val_eqb p q
+  | _, _ => false
+  end.
